@@ -207,9 +207,13 @@ class RandInfoBuilder(ModelVisitor,RandIF):
                 self._active_randset.add_constraint(c)
                 for s in self._active_order_randset_s:
                     s.add_constraint(c)
-            else:
-#                print("TODO: handle no-reference constraint: " + str(c_blk.name))
-                pass
+            elif not isinstance(c, ConstraintSolveOrderModel):
+                # A statement that references no field must hold nonetheless:
+                # it is solved in a rand set of its own
+                rs = RandSet()
+                self._randset_m[rs] = len(self._randset_l)
+                self._randset_l.append(rs)
+                rs.add_constraint(c)
         super().visit_constraint_stmt_leave(c)
         
     def visit_constraint_dynref(self, c):
